@@ -19,6 +19,8 @@ import (
 	_ "verifharness/cat"
 	"verifharness/checks"
 	"verifharness/core"
+
+	"github.com/cinar/indicator/v2/verifmc/mc"
 )
 
 func seed() int64 {
@@ -36,11 +38,20 @@ func root() string {
 func main() {
 	slog.SetDefault(slog.New(slog.NewTextHandler(io.Discard, nil)))
 	log.SetOutput(io.Discard)
+	if os.Getenv("VERIF_FREE") != "" {
+		// the free-running pass under Go's race detector: same harness bodies, ordinary goroutines, nothing decided
+		mc.SetFree(true)
+		if b, err := strconv.Atoi(os.Getenv("VERIF_FREE_BUDGET")); err == nil && b > 0 {
+			mc.FreeDeadline = time.Now().Add(time.Duration(b) * time.Second)
+		}
+	}
 	if len(os.Args) < 2 {
 		fmt.Fprintln(os.Stderr, "usage: vharness check|worker|replay ...")
 		os.Exit(2)
 	}
 	switch os.Args[1] {
+	case "racefilter":
+		os.Exit(core.RaceFilter(os.Args[2], root(), os.Args[3], os.Args[4:]))
 	case "dbg-bt":
 		checks.DebugBacktest()
 	case "dbg-sync":
